@@ -772,6 +772,36 @@ func (w *World) ImpactRound(val func(id uint32) (float64, uint32), between func(
 	return
 }
 
+// TryStart starts a real server on a prepared directory (the world's own server must be closed) and stops
+// it again; nothing is recorded for the model.  The directory is removed afterwards.
+func (w *World) TryStart(dir string, now uint32) (started bool, startErr error, panicked string) {
+	resetGates()
+	glow.SetCurrentTimeslot(now)
+	var s *server.GCAServer
+	func() {
+		defer func() {
+			if e := recover(); e != nil {
+				panicked = fmt.Sprint(e)
+			}
+		}()
+		s, startErr = server.NewGCAServer(dir)
+	}()
+	if panicked == "" && startErr == nil {
+		started = true
+		openGates()
+		func() {
+			defer func() {
+				if e := recover(); e != nil {
+					s.VerifStop()
+				}
+			}()
+			s.Close()
+		}()
+	}
+	os.RemoveAll(dir)
+	return
+}
+
 // Recent queries GET /api/v1/recent-reports for a public key and records the reply (the non-blank
 // slots of the window served, or "not found") for comparison with the model's recent_view.
 func (w *World) Recent(key glow.PublicKey, note string) (found bool, slots map[int]glow.EquipmentReport, status int) {
